@@ -16,6 +16,24 @@ import (
 	"github.com/goptics/varmq/internal/vt"
 )
 
+// normStatus: a compare-and-swap on the worker's status word is, for the models, a store of the
+// new value when it succeeds and a load of the current one when it fails
+func normStatus(ev vt.Event) vt.Event {
+	if ev.Kind != "cas" {
+		return ev
+	}
+	si := siteTab[ev.Site]
+	if si.Field != "status" || !strings.HasPrefix(si.Func, "worker.") {
+		return ev
+	}
+	if strings.HasPrefix(ev.Val, "1:") {
+		ev.Kind, ev.Val = "store", ev.Val[2:]
+	} else if strings.HasPrefix(ev.Val, "0:") {
+		ev.Kind, ev.Val = "load", ev.Val[2:]
+	}
+	return ev
+}
+
 type frame struct {
 	fn   string
 	recv int
@@ -364,7 +382,7 @@ func projectDisp(s *vt.Sched, j int, qid string) ([]string, bool) {
 		return true
 	}
 	for idx, ev0 := range s.Log {
-		ev := ev0
+		ev := normStatus(ev0)
 		if tg, ok := tags[idx]; ok {
 			// replay the mark's effect here, at the length word's change
 			ev = vt.Event{Tid: ev0.Tid, Site: 0, Kind: tg.kind, Obj: tg.job, Val: tg.val}
@@ -627,12 +645,21 @@ func writeWakeSlices(w *bufio.Writer, s *vt.Sched, tag string) int {
 	isLoop := map[int]bool{}
 	staleLoop := map[int]bool{}
 	closedChans := map[int]bool{}
+	bindingBy := map[int]int{} // thread -> adapter it is about to bind
+	adVisible := map[int]bool{}
+	adHidden := map[int]int{}
+	adSeenBinding := false
+	for _, ev := range s.Log {
+		if ev.Kind == "ad:binding" {
+			adSeenBinding = true
+		}
+	}
 	conc0 := ""
 	cur := 0
 	inRestart := map[int]int{}
 	var notifies []struct{ idx, tid int }
 	for idx, ev0 := range s.Log {
-		ev := ev0
+		ev := normStatus(ev0)
 		if tg, ok := tags[idx]; ok {
 			ev = vt.Event{Tid: ev0.Tid, Kind: tg.kind, Obj: tg.job, Val: tg.val}
 		} else if coveredMarks[idx] {
@@ -663,6 +690,32 @@ func writeWakeSlices(w *bufio.Writer, s *vt.Sched, tag string) int {
 		actor := "other"
 		if isLoop[t] && !staleLoop[t] {
 			actor = "loop"
+		}
+		// an adapter's content counts for the worker from the adapter's registration on (marks
+		// "ad:binding" + the binding thread's Manager.Register); what it held before shows up then
+		if ev.Kind == "ad:binding" {
+			bindingBy[t] = ev.Obj
+			continue
+		}
+		if ev.Kind == "lock" && fn == "Manager.Register" {
+			if a, ok := bindingBy[t]; ok {
+				delete(bindingBy, t)
+				adVisible[a] = true
+				if adHidden[a] > 0 {
+					cands = append(cands, cand{idx, t, fmt.Sprintf("kforeign %d %%s", adHidden[a])})
+					adHidden[a] = 0
+				}
+			}
+			continue
+		}
+		if strings.HasPrefix(ev.Kind, "ad:") && ev.Obj != 0 && !adVisible[ev.Obj] && adSeenBinding {
+			switch {
+			case ev.Kind == "ad:enq" && ev.Val == "1", ev.Kind == "ad:inject":
+				adHidden[ev.Obj]++
+			case ev.Kind == "ad:purge":
+				adHidden[ev.Obj] = 0
+			}
+			continue
 		}
 		switch {
 		case ev.Kind == "q:enq" && strings.HasPrefix(ev.Val, "1"), ev.Kind == "ad:enq" && ev.Val == "1":
